@@ -140,9 +140,13 @@ def run(ctx):
         ctx.add_mc(r, cfg)
         if r.violation:
             ctx.violate("mc", "mc:%s:%s" % (r.violation["kind"], r.violation["name"]), r.violation["text"][:3000])
-    for cfg in (["Gen_TtxEvents_q", "Gen_TtxEvents_acq"] if quick else ["Gen_TtxEvents_q", "Gen_TtxEvents_t", "Gen_TtxEvents_acq"]):
-        g = tlc.run("Gen_TtxEvents", cfg, timeout=1500, collect_tr=True, heap="12g",
-                    sample_tr=(8, ctx.seed) if (quick and cfg.endswith("_acq")) else None)
+    # the generator enumerates ALL paths of its bounded model (no VIEW): thorough uses four medium models (three handler
+    # functions / four top-level calls / two nested calls / two user data values) and replays a seeded sample of the largest ones
+    SAMPLE = {"Gen_TtxEvents_t2": 8, "Gen_TtxEvents_t3": 16, "Gen_TtxEvents_t4": 4}
+    for cfg in (["Gen_TtxEvents_q", "Gen_TtxEvents_acq"] if quick else
+                ["Gen_TtxEvents_q", "Gen_TtxEvents_t", "Gen_TtxEvents_t2", "Gen_TtxEvents_t3", "Gen_TtxEvents_t4", "Gen_TtxEvents_acq"]):
+        g = tlc.run("Gen_TtxEvents", cfg, timeout=2400, collect_tr=True, heap="12g",
+                    sample_tr=(8, ctx.seed) if (quick and cfg.endswith("_acq")) else ((SAMPLE[cfg], ctx.seed) if cfg in SAMPLE else None))
         if g.violation:
             raise tlc.ToolFailure("GEN run reported " + str(g.violation))
         ctx.add_mc(g, "GEN " + cfg)
